@@ -5,5 +5,5 @@ CONSTANTS
   MaxOps = 5
   MaxCrashes = 1
   KeyBySeq = FALSE
-INVARIANTS FifoNoCrash PendingExact Durable BoundRespected
+INVARIANTS FifoNoCrash PendingExact Durable BoundRespected KeysUnique
 CHECK_DEADLOCK FALSE
